@@ -14,6 +14,9 @@ type FilterSpec struct {
 	// PreNNP: the goroutine that is about to call LoadFilter calls SetNoNewPrivs() first (on whatever thread it happens to
 	// run): the thread it starts on then has the bit, other threads do not
 	PreNNP bool `json:"pre_nnp,omitempty"`
+	// Reassembled: the Policy value handed to LoadFilter compiled and printed another policy before (same default action,
+	// same number of groups, every group listing only "sync") and was then edited in place to this one
+	Reassembled bool `json:"reassembled,omitempty"`
 }
 
 // Probe is one raw system call.
